@@ -67,6 +67,12 @@ def damage(data, fault):
     if k == "ident-line":
         first, _, rest = data.partition(b"\n")
         return fault["text"].encode() + b"\n" + rest
+    if k == "badnum":
+        # one number replaced (wrong sign, a length far beyond the file, ...); whether the result still loads is not predicted
+        import re
+        toks = list(re.finditer(rb"(?<![\w.])-?\d+(?![\w.])", data))
+        t = toks[fault["which"] % len(toks)]
+        return data[:t.start()] + str(fault["value"]).encode() + data[t.end():]
     return data
 
 
@@ -672,6 +678,17 @@ class History:
                 self.uniq_lookups(op)
             elif k == "roundtrip":
                 self.roundtrip(op)
+            elif k == "touch":
+                # totality only (for damage whose effect on the content is not modelled): load, ask, serialise, sweep a few functions
+                self.call("interrogate_number_of_types")
+                self.call("interrogate_error_flag")
+                self.pending = []
+                self.dump()
+                for i in range(-1, 40):
+                    self.call("interrogate_type_name", i)
+                    self.call("interrogate_function_name", i)
+                    self.call("interrogate_type_number_of_methods", i)
+                    self.call("interrogate_wrapper_number_of_parameters", i)
         return {"violations": self.viol, "stats": self.stats}
 
     def roundtrip(self, op):
